@@ -40,6 +40,10 @@
 (*   "realpart" max / min of the real parts of ALL roots (filter dropped)  *)
 (*   "swapped"  gas takes the smallest, liquid the largest                 *)
 (* The last two are kept as configurations that TLC must reject.           *)
+(* Memo models a get_Vm that remembers the roots of its last solve; a and  *)
+(* b are public attributes that a caller may assign (action SetParam), so  *)
+(* a memo keyed by (T, P) only ("state_only") serves stale roots after an  *)
+(* edit and must be rejected; "state_and_params" must pass.                *)
 (*                                                                         *)
 (* What this establishes: the selection rule + closed forms of the code    *)
 (* satisfy the required relations exactly on every modelled cubic; what    *)
@@ -54,13 +58,15 @@ CONSTANTS RootVals,    \* positive integers used as real roots
           Pressures,   \* rationals <<num, den>>
           Amounts,     \* rationals
           IdealRTs,    \* rationals: RT values of ideal-gas states
-          Variant      \* "isreal" | "realpart" | "swapped"
+          Variant,     \* "isreal" | "realpart" | "swapped"
+          Memo         \* "none" | "state_and_params" | "state_only": get_Vm remembers the roots of its last call
 
 VARIABLES eos,   \* [kind, a, b]
           cub,   \* root oracle for the current (eos, P, RT)
           st,    \* [P, RT, n, V, ph]
-          act    \* name of the last action
-vars == <<eos, cub, st, act>>
+          act,   \* name of the last action
+          memo   \* [key, cub]: what a memoising get_Vm remembers of its last solve (NoMemo: nothing)
+vars == <<eos, cub, st, act, memo>>
 
 Phases == {"gas", "liquid"}
 Zero == R(0)
@@ -81,6 +87,10 @@ Cubics3 == {Cub3(r1, r2, r3) : <<r1, r2, r3>> \in
               {t \in RootVals \X RootVals \X RootVals : t[1] <= t[2] /\ t[2] <= t[3]}}
 Cubics1 == {Cub1(t[1], t[2], t[3]) : t \in RootVals \X ReVals \X ImVals}
 Cubics == Cubics3 \cup Cubics1
+\* cubics with known roots that share RT/P = s1 - s3/s2 pairwise (10; 50/3; 18; 25/4; 9/2): the
+\* same (T, P) seen by objects with different (a, b)
+EditCubics == {Cub3(2, 3, 6), Cub1(6, 3, 3), Cub1(10, 1, 2), Cub3(2, 8, 8), Cub3(3, 3, 12),
+               Cub3(4, 8, 8), Cub3(5, 5, 10), Cub3(2, 2, 3), Cub1(1, 3, 3), Cub3(1, 2, 2), Cub1(5, 1, 3)}
 NoCub == [s1 |-> 0, s2 |-> 0, s3 |-> 0, roots |-> <<>>]
 
 RealRoots(c) == {c.roots[i].re : i \in {j \in 1..Len(c.roots) : c.roots[j].im = 0}}
@@ -104,7 +114,16 @@ Cube(x) == RMul(x, RMul(x, x))
 EqP(e, RT, vm) == RSub(RDiv(RT, RSub(vm, e.b)), RDiv(e.a, Sq(vm)))
 EqRT(e, P, vm) == RMul(RAdd(P, RDiv(e.a, Sq(vm))), RSub(vm, e.b))
 \* get_Vm
-MolarV(e, c, P, RT, ph) == IF e.kind = "ideal" THEN RDiv(RT, P) ELSE R(Sel(Variant, c, ph))
+\* a memoising get_Vm: the roots of the last solve are reused when the key matches.  The public
+\* attributes a, b can be assigned at any time (SetParam), so a correct key contains them;
+\* "state_only" (key = (T, P)) is the variant that must be rejected.
+NoMemo == [key |-> <<>>, cub |-> NoCub]
+MemoKey(e, P, RT) == IF Memo = "state_only" THEN <<P, RT>> ELSE <<P, RT, e.a, e.b>>
+CubUsed(e, c, P, RT) == IF Memo # "none" /\ memo.key = MemoKey(e, P, RT) THEN memo.cub ELSE c
+Remember(e, c, P, RT) == IF Memo = "none" \/ e.kind = "ideal" THEN NoMemo
+                         ELSE [key |-> MemoKey(e, P, RT), cub |-> CubUsed(e, c, P, RT)]
+MolarVFresh(e, c, P, RT, ph) == IF e.kind = "ideal" THEN RDiv(RT, P) ELSE R(Sel(Variant, c, ph))
+MolarV(e, c, P, RT, ph) == MolarVFresh(e, CubUsed(e, c, P, RT), P, RT, ph)
 
 \* the polynomial P v^3 - (P b + RT) v^2 + a v - a b
 PolyAt(e, P, RT, v) ==
@@ -116,8 +135,9 @@ Vm == RDiv(st.V, st.n)
 \* ---- initial states: every modelled object in every modelled state (construction + get_V)
 Built(e, c, P, RT, n, ph) ==
    /\ eos = e /\ cub = c /\ act = "Construct"
-   /\ st = [P |-> P, RT |-> RT, n |-> n, V |-> RMul(n, MolarV(e, c, P, RT, ph)), ph |-> ph]
-InitVdw == \E c \in Cubics, P \in Pressures, n \in Amounts, ph \in Phases :
+   /\ st = [P |-> P, RT |-> RT, n |-> n, V |-> RMul(n, MolarVFresh(e, c, P, RT, ph)), ph |-> ph]
+   /\ memo = (IF Memo = "none" \/ e.kind = "ideal" THEN NoMemo ELSE [key |-> MemoKey(e, P, RT), cub |-> c])
+InitVdw == \E c \in Cubics \cup EditCubics, P \in Pressures, n \in Amounts, ph \in Phases :
               Built(VdwOf(c, P), c, P, RTOf(c, P), n, ph)
 InitIdeal == \E P \in Pressures, RT \in IdealRTs, n \in Amounts :
               Built(Ideal, NoCub, P, RT, n, "gas")
@@ -125,20 +145,30 @@ InitIdeal == \E P \in Pressures, RT \in IdealRTs, n \in Amounts :
 \* ---- actions (the getters)
 SolveV(ph) == /\ st' = [st EXCEPT !.V = RMul(st.n, MolarV(eos, cub, st.P, st.RT, ph)), !.ph = ph]
               /\ act' = (IF ph = st.ph THEN "SolveVsame" ELSE "SolveVother")
-              /\ UNCHANGED <<eos, cub>>
+              /\ memo' = Remember(eos, cub, st.P, st.RT) /\ UNCHANGED <<eos, cub>>
 SolveP == /\ st' = [st EXCEPT !.P = EqP(eos, st.RT, Vm)]
-          /\ act' = "SolveP" /\ UNCHANGED <<eos, cub>>
+          /\ act' = "SolveP" /\ UNCHANGED <<eos, cub, memo>>
 SolveT == /\ st' = [st EXCEPT !.RT = EqRT(eos, st.P, Vm)]
-          /\ act' = "SolveT" /\ UNCHANGED <<eos, cub>>
+          /\ act' = "SolveT" /\ UNCHANGED <<eos, cub, memo>>
 SolveN == /\ st' = [st EXCEPT !.n = RDiv(st.V, MolarV(eos, cub, st.P, st.RT, st.ph))]
-          /\ act' = "SolveN" /\ UNCHANGED <<eos, cub>>
+          /\ act' = "SolveN" /\ memo' = Remember(eos, cub, st.P, st.RT) /\ UNCHANGED <<eos, cub>>
 ChangeN(n2) == /\ st' = [st EXCEPT !.n = n2, !.V = RMul(n2, MolarV(eos, cub, st.P, st.RT, st.ph))]
-               /\ act' = "ChangeN" /\ UNCHANGED <<eos, cub>>
+               /\ act' = "ChangeN" /\ memo' = Remember(eos, cub, st.P, st.RT) /\ UNCHANGED <<eos, cub>>
+\* eos.a = ..., eos.b = ... assigned on the live object (a parameter scan at fixed T, P), followed by
+\* get_V at the SAME (T, P): the new parameters are those of another cubic with known roots and the
+\* same RT/P = s1 - s3/s2
+SetParam(c2, ph) ==
+   /\ eos.kind = "vdw" /\ c2 # cub /\ RTOf(c2, st.P) = st.RT
+   /\ eos' = VdwOf(c2, st.P) /\ cub' = c2
+   /\ st' = [st EXCEPT !.V = RMul(st.n, MolarV(eos', c2, st.P, st.RT, ph)), !.ph = ph]
+   /\ memo' = Remember(eos', c2, st.P, st.RT)
+   /\ act' = "SetParam"
 
 Init == InitVdw \/ InitIdeal
 Next == \/ \E ph \in (IF eos.kind = "ideal" THEN {"gas"} ELSE Phases) : SolveV(ph)
         \/ SolveP \/ SolveT \/ SolveN
         \/ \E n2 \in Amounts : ChangeN(n2)
+        \/ \E c2 \in EditCubics, ph \in Phases : SetParam(c2, ph)
 Spec == Init /\ [][Next]_vars
 
 \* ---- the required relations
@@ -152,7 +182,7 @@ OracleMatches ==
       /\ eos.a = RMul(st.P, R(cub.s2))
       /\ RMul(eos.a, eos.b) = RMul(st.P, R(cub.s3))
 \* real roots found by evaluating the polynomial at every candidate = the oracle's real roots
-ScanMax == MaxOf(RootVals \cup ReVals)
+ScanMax == MaxOf(RootVals \cup ReVals \cup {12})
 ScanRoots == {v \in 1..ScanMax : PolyAt(eos, st.P, st.RT, R(v)) = Zero}
 ScanComplete == eos.kind = "vdw" => ScanRoots = RealRoots(cub)
 
